@@ -318,6 +318,26 @@ def dispatchP (n : Nat) : PArg K → Option (Nat → List (V3 K))
     else if pss.length ≠ n then none
     else some (fun i => pss.getD i [])
 
+/-- which broadcasting `set_p_vectors` / `nye_tensor` perform for a given `len(p_vectors)`: the single entry for every
+    atom, the whole array for every atom, or entry `i` for atom `i` (the test chain of the source, in its order). -/
+inductive PKind where
+  | single | whole | each
+deriving DecidableEq, Repr
+
+def dispatchKind (len natoms : Nat) : PKind :=
+  if len = 1 then .single else if len ≠ natoms then .whole else .each
+
+/-- `dispatchP` read off the kind: a nested sequence cannot be broadcast as a whole (numpy refuses). -/
+def dispatchByKind (n : Nat) : PArg K → Option (Nat → List (V3 K))
+  | .flat ps => match dispatchKind ps.length n with
+    | .single => some (fun _ => ps ++ ps ++ ps)
+    | .whole => some (fun _ => ps)
+    | .each => some (fun i => match ps[i]? with | some v => [v] | none => [])
+  | .nested pss => match dispatchKind pss.length n with
+    | .single => some (fun _ => pss.headD [])
+    | .whole => none
+    | .each => some (fun i => pss.getD i [])
+
 /-- `set_p_vectors`: broadcasting, then the optional `axes` transformation. -/
 def givenP (n : Nat) (arg : PArg K) (axes : Option (M3 K)) : Option (Nat → List (V3 K)) :=
   match dispatchP n arg, axes with
@@ -579,6 +599,24 @@ def SObj.asdict (mag : V3 K → K) (big : K) (o : SObj K) (props : Option (List 
   match r.2 with
   | none => (r.1, .error .value)
   | some vs => (r.1, if plan.2 then .error .assert else .ok vs)
+
+/-! ### `disregistry(basesystem, dislsystem, m, n, planepos)` from the two systems -/
+
+/-- what the body of `disregistry` computes its profile from: `displacement(basesystem, dislsystem)` (default
+    `box_reference='final'`: the atom-count `ValueError` comes from there), the coordinates `pos·m`, `pos·n` of the BASE
+    system's atoms and the plane position `planepos·n`. -/
+def disregistryInputs (n0 n1 : Nat) (c0 c1 : Cell K) (pos0 pos1 : Nat → V3 K) (m n planepos : V3 K) :
+    Except NbrErr (List (K × K × V3 K) × K) :=
+  match displacementCall n0 n1 c0 c1 .final pos0 pos1 with
+  | .error e => .error e
+  | .ok disp => .ok ((List.range n0).map (fun i => (V3.dot (pos0 i) m, V3.dot (pos0 i) n, disp i)), V3.dot planepos n)
+
+/-- the whole call: `.error` = the refusal of `displacement`, `.ok none` = the two `ValueError`s of the plane selection. -/
+def disregistryCall (atol rtol : K) (n0 n1 : Nat) (c0 c1 : Cell K) (pos0 pos1 : Nat → V3 K) (m n planepos : V3 K) :
+    Except NbrErr (Option (List (K × V3 K))) :=
+  match disregistryInputs n0 n1 c0 c1 pos0 pos1 m n planepos with
+  | .error e => .error e
+  | .ok inp => .ok (disregistry atol rtol inp.1 inp.2)
 
 /-! ### the `DifferentialDisplacement` object -/
 
